@@ -58,19 +58,46 @@ class Rec:
             self.errors.append(e)
 
 
+def count_cycles(arr):
+    """Count polling cycles of the monitor thread: every call of get_stale_descrs starts a new cycle, and the previous
+    cycle (including submit_pending_jobs' counter update) is then complete."""
+    arr.verif_cycles = 0
+    orig = arr.get_stale_descrs
+
+    def get_stale_descrs():
+        arr.verif_cycles += 1
+        return orig()
+    arr.get_stale_descrs = get_stale_descrs
+
+
 def settle(arr, rec, n_added, interval, cycles=400):
-    """Wait (bounded by polling cycles, not by a verdict deadline) until everything was handed off."""
-    for _ in range(cycles):
+    """Wait until everything was handed off, then until the monitor has begun two further polling cycles (a logical
+    quiescence criterion: the cycle that handed off the last job has finished).  Returns False when the generous
+    wall-clock watchdog fires first (the case is then inconclusive, not a violation)."""
+    t0 = time.time()
+    start_cycles = arr.verif_cycles
+    handed = False
+    while time.time() - t0 < 30:
         with rec.lock:
             n = sum(len(b[1]) for b in rec.batches)
             errs = len(rec.errors)
-        if n >= n_added or errs:
+        if n >= n_added or errs or not arr._monitor_thread.is_alive():
+            handed = True
             break
-        if not arr._monitor_thread.is_alive():
-            break
+        if arr.verif_cycles - start_cycles >= 300:
+            # 300 complete polling cycles after the last addition and still something pending: decided on logical steps
+            return True
         time.sleep(max(interval, 0.001))
-    # let a last cycle finish its counter update
-    time.sleep(max(interval, 0.001) * 3)
+    if not handed:
+        return False
+    if rec.errors or not arr._monitor_thread.is_alive():
+        return True
+    c0 = arr.verif_cycles
+    while time.time() - t0 < 40:
+        if arr.verif_cycles >= c0 + 2 or not arr._monitor_thread.is_alive():
+            return True
+        time.sleep(max(interval, 0.001))
+    return False
 
 
 def judge(ctx, arr, rec, added, cfg, wit):
@@ -95,7 +122,7 @@ def judge(ctx, arr, rec, added, cfg, wit):
         bad = True
     if lost and not rec.errors:
         if arr._monitor_thread.is_alive():
-            ctx.violation("job-never-handed-off", "%d job(s) still pending after the allowed polling cycles, monitor alive" % len(lost), wit)
+            ctx.violation("job-never-handed-off", "%d job(s) still pending after 300 further polling cycles, monitor alive" % len(lost), wit)
         else:
             ctx.violation("job-lost-monitor-dead", "%d job(s) pending and no monitor thread alive" % len(lost), wit)
         bad = True
@@ -146,6 +173,7 @@ def systematic_monitor_side(ctx, ex, code_i, line, hit, pattern, cfg):
     rec = Rec()
     arr = JobArrayer(rec.submit, rec.on_error, submit_interval=cfg["interval"], stale_time=cfg["stale"],
                      min_array_size=cfg["min"], max_array_size=cfg["max"])
+    count_cycles(arr)
     added = []
     wit = {"mode": "park-monitor", "func": ex.codes[code_i].co_name, "line_offset": line - ex.codes[code_i].co_firstlineno,
            "hit": hit, "pattern": pattern, "cfg": cfg}
@@ -179,7 +207,10 @@ def systematic_monitor_side(ctx, ex, code_i, line, hit, pattern, cfg):
             ctx.count("park_points_not_on_path")
         ex.resume()
         ex.plan = None
-        settle(arr, rec, len(added), cfg["interval"])
+        if not settle(arr, rec, len(added), cfg["interval"]):
+            ctx.count("inconclusive_no_quiescence_within_watchdog")
+            ctx.mark_inconclusive("monitor did not begin two further cycles within the watchdog: %r" % (wit,))
+            return False
         ctx.ev()
         return judge(ctx, arr, rec, added, cfg, wit)
     finally:
@@ -192,6 +223,7 @@ def systematic_add_side(ctx, ex, line, hit, cfg):
     rec = Rec()
     arr = JobArrayer(rec.submit, rec.on_error, submit_interval=cfg["interval"], stale_time=cfg["stale"],
                      min_array_size=cfg["min"], max_array_size=cfg["max"])
+    count_cycles(arr)
     added = []
     wit = {"mode": "park-adder", "line_offset": line - ex.codes[3].co_firstlineno, "hit": hit, "cfg": cfg}
     ex.set_plan(3, line, hit, only_thread=lambda t: t.name == "adder")
@@ -216,7 +248,10 @@ def systematic_add_side(ctx, ex, line, hit, cfg):
         ex.resume()
         ex.plan = None
         t.join(5)
-        settle(arr, rec, len(added), cfg["interval"])
+        if not settle(arr, rec, len(added), cfg["interval"]):
+            ctx.count("inconclusive_no_quiescence_within_watchdog")
+            ctx.mark_inconclusive("monitor did not begin two further cycles within the watchdog: %r" % (wit,))
+            return False
         ctx.ev()
         return judge(ctx, arr, rec, added, cfg, wit)
     finally:
@@ -270,6 +305,7 @@ def stress_case(ctx, ex, rnd, where):
     rec = Rec()
     arr = JobArrayer(rec.submit, rec.on_error, submit_interval=cfg["interval"], stale_time=cfg["stale"],
                      min_array_size=cfg["min"], max_array_size=cfg["max"])
+    count_cycles(arr)
     seed = rnd.getrandbits(32)
     ex.set_random(seed, p_yield=rnd.choice([0.1, 0.3, 0.6]))
     jobs = [mkjob(i, rnd.randrange(ndescr) if rnd.random() < 0.8 else i % 7) for i in range(total)]
@@ -288,7 +324,10 @@ def stress_case(ctx, ex, rnd, where):
             t.start()
         for t in ths:
             t.join(20)
-        settle(arr, rec, total, cfg["interval"], cycles=1500)
+        if not settle(arr, rec, total, cfg["interval"]):
+            ctx.count("inconclusive_no_quiescence_within_watchdog")
+            ctx.mark_inconclusive("monitor did not begin two further cycles within the watchdog: %r" % (wit,))
+            return False
         ctx.ev()
         ctx.count("stress_runs")
         if ndescr >= 2:
